@@ -21,6 +21,7 @@ package main
 //	                          into a closure per loop body, which no rule follows)
 //	H  range over an integer: for i := range n {…}  →  for i := 0; i < n; i++ {…}   (n a constant, a variable or field path, or
 //	                          len of one, that the body does not assign; i not assigned in the body — the rules know counted loops)
+//	I  library copy loops:    maps.Copy(dst, src)  →  for k, v := range src { dst[k] = v }   (its definition; dst, src variables or field paths)
 //	F  receiver restored:     func m(x *T, a A) of a routine the pinned tree knows as method (*T).m(a A), with its calls
 //	                          m(v, a)  →  func (x *T) m(a A), (v).m(a)   (the rules find such routines among T's methods)
 //
@@ -68,6 +69,7 @@ func canonicalSpelling(p *packages.Package, overlay map[string][]byte) map[strin
 		off := func(pos token.Pos) int { return p.Fset.Position(pos).Offset }
 		text := func(n ast.Node) string { return string(src[off(n.Pos()):off(n.End())]) }
 		usedSlices := false
+		usedMaps := false
 		// a rewrite is a group of edits that stand or fall together
 		var groups [][]inlineEdit
 		var cur []inlineEdit
@@ -396,6 +398,19 @@ func canonicalSpelling(p *packages.Package, overlay map[string][]byte) map[strin
 					add(off(x.Pos()), off(x.End()), text(x.Y)+" "+t.String()+" "+text(x.X))
 					flush()
 				}
+			case *ast.ExprStmt:
+				if call, ok := x.X.(*ast.CallExpr); ok && len(call.Args) == 2 && plainLvalue(call.Args[0]) && plainLvalue(call.Args[1]) {
+					if sel, ok := call.Fun.(*ast.SelectorExpr); ok && sel.Sel.Name == "Copy" {
+						if pk, ok := sel.X.(*ast.Ident); ok {
+							if pn, ok := info.Uses[pk].(*types.PkgName); ok && pn.Imported().Path() == "maps" {
+								kN, vN := fmt.Sprintf("kCopy%d", off(x.Pos())), fmt.Sprintf("vCopy%d", off(x.Pos()))
+								add(off(x.Pos()), off(x.End()), "for "+kN+", "+vN+" := range "+text(call.Args[1])+" {\n"+text(call.Args[0])+"["+kN+"] = "+vN+"\n}")
+								usedMaps = true
+								flush()
+							}
+						}
+					}
+				}
 			case *ast.RangeStmt:
 				if tx := info.TypeOf(x.X); tx != nil && x.Value == nil && (x.Tok == token.DEFINE || x.Key == nil) {
 					if bt, isBasic := tx.Underlying().(*types.Basic); isBasic && bt.Info()&types.IsInteger != 0 {
@@ -605,6 +620,9 @@ func canonicalSpelling(p *packages.Package, overlay map[string][]byte) map[strin
 		b = append(b, src[pos:]...)
 		if usedSlices {
 			b = append(b, []byte("\nvar _ = slices.Reverse[[]int] // keeps the import in use after the iterator adapters were unfolded\n")...)
+		}
+		if usedMaps {
+			b = append(b, []byte("\nvar _ = maps.Copy[map[int]int, map[int]int] // keeps the import in use after maps.Copy was unfolded\n")...)
 		}
 		out[name] = b
 	}
